@@ -1180,6 +1180,10 @@ class TaskPool:
                     self.check_task_output,
                 )
                 self._swap_out(new_task)
+                # A manually triggered task has been through job submission
+                # by now (the reload waits for that) but is still listed for
+                # triggering: don't submit the old proxy again afterwards.
+                self.tasks_to_trigger_now.discard(itask)
                 self.data_store_mgr.delta_task_prerequisite(new_task)
                 LOG.info(f"[{itask}] reloaded task definition")
 
